@@ -21,6 +21,7 @@ func init() {
 		Rule: "seeded (policy, data) cases: policy ASTs to depth 4 over all 11 statement kinds; data trees of every kind (boundary ints, finite floats, NaN/Inf, empty collections, lists of maps under quantifiers). " +
 			"(a) inside the fragment where every selector resolves: Match == conjunction of the classical reading (reference evaluator, no short-circuit); " +
 			"(b) permutation groups: all orders (<=4) or 6 random orders of the operands of every and/or (any depth) and of the elements of every list visited by all/any must give the same Match and PartialMatch, on data that mixes present, missing-required and missing-optional paths; " +
+			"(a2) numeric grid: every comparison kind (plain and negated) over every ordered pair of 45 delicate numbers - integers around +-2^53, +-2^62, the ends of int64 (where float64 rounding collapses neighbours), floats at the same places, +-0, +-MaxFloat64, denormals - same-kind and cross-kind; " +
 			"(c) top-level and + one operand / all + one element never turns a failing Match into a passing one; (d) Match => PartialMatch; (e) Match(P1||P2) == Match(P1) && Match(P2), same for PartialMatch; " +
 			"(f) a single top-level leaf over missing required data gives (Match false, PartialMatch true), over missing optional data passes both. " +
 			"non-trivial = policy with a connective/quantifier/negation or a non-equality leaf; distinct = (policy, data).",
@@ -33,7 +34,7 @@ func init() {
 		MinEvals:    floor(150000, 4000000),
 		MinDistinct: floor(20000, 500000),
 		RequiredCells: func(string) []string {
-			cells := []string{"a/true", "a/false", "a/map-literal-reordered", "a/link-same-hash-other-codec", "a/float-opposite-huge", "b/and", "b/or", "b/all", "b/any", "c/and", "c/all", "d", "e", "f/missing-required", "f/missing-optional", "data/nan-inf", "data/empty-collections", "via/constructors", "via/ipld"}
+			cells := []string{"grid", "grid/int-vs-int", "grid/float-vs-float", "grid/int-vs-float", "grid/float-vs-int", "grid/both-beyond-2^53", "a/true", "a/false", "a/map-literal-reordered", "a/link-same-hash-other-codec", "a/float-opposite-huge", "b/and", "b/or", "b/all", "b/any", "c/and", "c/all", "d", "e", "f/missing-required", "f/missing-optional", "data/nan-inf", "data/empty-collections", "via/constructors", "via/ipld"}
 			for _, k := range ref.AllKinds {
 				cells = append(cells, "a/kind/"+k)
 			}
@@ -330,6 +331,7 @@ func nontrivialPolicy(p ref.Policy) bool {
 }
 
 func runC11(w *mon.W) {
+	c11NumericGrid(w)
 	r := w.Rng
 	// ---------- (a) classical reading inside the resolving fragment
 	na := w.Share(w.Pick(40000, 1500000))
@@ -746,5 +748,86 @@ func c11CoverDelicate(w *mon.W, p ref.Policy, d ref.V) {
 	}
 	for _, s := range p {
 		walk(s, d)
+	}
+}
+
+// c11NumericGrid: every comparison kind over every ordered pair of a grid of delicate numbers
+// (integers around +-2^53 and +-2^63 where float64 rounding collapses neighbours, floats
+// around the same places and at the ends of the range, signed zeros), same-kind and
+// cross-kind (int literal vs float data and vice versa), as a single statement and negated.
+// Literals outside +-(2^53-1) can only be built with the constructors (the IPLD decoder
+// rejects them), so those go through the constructor form only.
+func c11NumericGrid(w *mon.W) {
+	ints := []int64{0, 1, -1, 2, 1 << 24, 1<<24 + 1, gen.MaxSafe - 1, gen.MaxSafe, gen.MaxSafe + 1, gen.MaxSafe + 2, gen.MaxSafe + 3,
+		-(gen.MaxSafe - 1), -gen.MaxSafe, -(gen.MaxSafe + 1), -(gen.MaxSafe + 2), 1 << 62, 1<<62 + 1, -(1 << 62), -(1<<62 + 1),
+		math.MaxInt64, math.MaxInt64 - 1, math.MaxInt64 - 512, math.MinInt64, math.MinInt64 + 1}
+	floats := []float64{0, math.Copysign(0, -1), 0.5, -0.5, 1, -1, 1 << 53, 1<<53 + 2, -(1 << 53), 9007199254740993, 1e308, -1e308, math.MaxFloat64, -math.MaxFloat64,
+		math.SmallestNonzeroFloat64, -math.SmallestNonzeroFloat64, 1.5e308, -1.5e308, 16777217, 0.1 + 0.2, 0.3}
+	var nums []ref.V
+	for _, i := range ints {
+		nums = append(nums, ref.Int(i))
+	}
+	for _, f := range floats {
+		nums = append(nums, ref.Float(f))
+	}
+	sel := ref.Sel{{Kind: ref.SField, Name: "n"}}
+	idx := 0
+	for _, lit := range nums {
+		for _, kind := range ref.CmpKinds {
+			idx++
+			if !w.Mine(idx) {
+				continue
+			}
+			for _, neg := range []bool{false, true} {
+				st := ref.Stmt{Kind: kind, Sel: sel, Val: lit}
+				if neg {
+					st = ref.Stmt{Kind: "not", Subs: []ref.Stmt{st}}
+				}
+				p := ref.Policy{st}
+				cons, err := gen.BuildPolicy(p)
+				if err != nil {
+					w.Inconclusive("C11 numeric grid: constructor refused " + p.String() + ": " + err.Error())
+					continue
+				}
+				var viaIPLD policy.Policy
+				if intsInRange(lit) {
+					viaIPLD, _ = gen.BuildPolicyIPLD(p)
+				}
+				for _, x := range nums {
+					d := ref.Map(ref.E("n", x))
+					t, _ := ref.EvalPolicy(p, d)
+					if t == ref.Unresolved {
+						continue
+					}
+					want := t == ref.True
+					for vi, pol := range []policy.Policy{cons, viaIPLD} {
+						if pol == nil {
+							continue
+						}
+						var m, pm bool
+						if pi := mon.Guard(func() {
+							m, _ = pol.Match(d.Node())
+							pm, _ = pol.PartialMatch(d.Node())
+						}); pi != nil {
+							w.Count("match-panics(judged by C09)", 1)
+							continue
+						}
+						w.Eval(2)
+						w.Cover("grid")
+						cls := lit.K.String() + "-vs-" + x.K.String()
+						w.Cover("grid/" + cls)
+						if lit.K == ref.KInt && x.K == ref.KInt && !intsInRange(lit) && !intsInRange(x) {
+							w.Cover("grid/both-beyond-2^53")
+						}
+						w.Distinct("grid", kind, neg, lit.String(), x.String(), vi)
+						if m != want || pm != want {
+							w.Violate(fmt.Sprintf("a/grid/%s/%s/match=%v", kind, cls, m),
+								fmt.Sprintf("policy %s on %s: Match=%v PartialMatch=%v, classical reading says %v (form %s)", p, d, m, pm, want, []string{"constructors", "ipld"}[vi]),
+								map[string]any{"policy": p.String(), "data": d.String(), "match": m, "partial": pm, "model": want, "form": []string{"constructors", "ipld"}[vi]})
+						}
+					}
+				}
+			}
+		}
 	}
 }
